@@ -235,17 +235,23 @@ def object_forms(ctx, libs_, smi, calls=None):
     d = dict(libs_)
     for form, obj in forms.items():
         done = []
+        # what the scheme file declares for THIS object's graph (its own Kekule form and ring order: a molecule object and
+        # its SMILES text may legitimately differ there, finding F3), computed on a copy before the object is used
+        graph = S.prepare(Chem.Mol(obj))
+        if graph is None:
+            continue
         for name in calls:
             lib = d[name]
-            ref = S.impl_descriptors(lib, smi)
+            ref = S.declared(S.scheme_input(lib.scheme, Chem.Mol(graph)))
             got = S.impl_descriptors(lib, obj)
             done.append(name)
             ctx.count('object_form_calls')
             ctx.case(None, None)
             if got.get('err', '').startswith('internal') or ('ok' in got) != ('ok' in ref) or \
                     ('ok' in ref and not S.same_counts(got['ok'], ref['ok'])):
-                ctx.violation('a molecule object does not give the descriptors of its SMILES text (call %d on the same object)' % len(done),
-                              {'scheme': name, 'smiles': smi, 'form': form, 'calls': list(done)}, ref, got)
+                ctx.violation('a molecule object does not give the declared decomposition of its graph (call %d on the same object)' % len(done),
+                              {'scheme': name, 'smiles': smi, 'form': form, 'calls': list(done)},
+                              ref if 'err' in ref else {k: float(v) for k, v in ref['ok'].items()}, got)
                 return
 
 
